@@ -232,9 +232,9 @@ Qed.
 
 (* freq_table_roundtrip: what write_frequencies writes, ReadFrequencies0 reads -- for every
    table of 256 entries below 2^32 in which at least one symbol occurs *)
-Theorem freq_table_roundtrip F rest :
+Theorem freq_table_roundtrip_raw F rest :
   length F = 256%nat -> Forall (fun g => g < 4294967296) F -> (exists i, nth i F 0 <> 0) ->
-  spec_read_frequencies0 (write_frequencies F ++ rest) = Some (F, rest).
+  spec_read_frequencies0_raw (write_frequencies F ++ rest) = Some (F, rest).
 Proof.
   intros Hlen Hb Hnz.
   destruct (split_first_nonzero F Hnz) as [z [f [r [HF Hf]]]]. subst F.
@@ -244,7 +244,7 @@ Proof.
   cbn [index_from write_frequencies_go]. replace (f =? 0) with false by lia.
   replace (0 <? match z with O => 0 | S _ => 0 end) with false by (destruct z; reflexivity).
   rewrite andb_false_r. replace (0 + N.of_nat z) with (N.of_nat z) by lia.
-  cbn [app]. unfold spec_read_frequencies0.
+  cbn [app]. unfold spec_read_frequencies0_raw.
   destruct (MT_all r) as [_ HT].
   pose proof (HT (repeat 0 z) f O) as HT'. rewrite repeat_length in HT'.
   rewrite <- app_assoc.
@@ -257,6 +257,25 @@ Proof.
   - constructor.
   - intros _. exact Hf.
   - cbn [length]. rewrite !app_length. lia.
+Qed.
+
+(* ... and the table passes the validation of its total (at most 4096 = 1 << 12) *)
+Theorem freq_table_roundtrip F rest :
+  length F = 256%nat -> Forall (fun g => g < 4294967296) F -> (exists i, nth i F 0 <> 0) ->
+  sumN F <= 4096 ->
+  spec_read_frequencies0 (write_frequencies F ++ rest) = Some (F, rest).
+Proof.
+  intros Hlen Hb Hnz Hsum. unfold spec_read_frequencies0.
+  rewrite freq_table_roundtrip_raw by assumption.
+  replace (4096 <? sumN F) with false by lia. reflexivity.
+Qed.
+
+(* a table whose total exceeds 4096 is REJECTED when read, however it is laid out *)
+Theorem freq_table_total_rejected bs F r :
+  spec_read_frequencies0_raw bs = Some (F, r) -> 4096 < sumN F -> spec_read_frequencies0 bs = None.
+Proof.
+  intros H Hs. unfold spec_read_frequencies0. rewrite H.
+  replace (4096 <? sumN F) with true by lia. reflexivity.
 Qed.
 
 (* ---------- header and states ---------- *)
@@ -323,4 +342,5 @@ Proof.
   - rewrite Forall_forall. intros g Hg. apply In_nth with (d := 0) in Hg.
     destruct Hg as [i [_ Hi]]. pose proof (nth_le_sumN F i). lia.
   - exists (N.to_nat x0). destruct Htab as [_ Hs]. destruct (Hs x0 (or_introl eq_refl)) as [_ Hp]. lia.
+  - exact HFs.
 Qed.
